@@ -44,6 +44,9 @@ func H_C17(tbl, router int) {
 	ht := &vH{table: t, flat: h.flat, cond: h.cond}
 	twin := ht.build(vRouter(router))
 	p := nondetString("path", pathCap)
+	if vMinSegs > maxSeg {
+		maxSeg = vMinSegs // the table has longer templates than the usual bound
+	}
 	verifAssume(strings.Count(strings.Trim(p, "/"), "/") < maxSeg)
 	// recorded findings
 	// (the URL is claimed by the root expressions of more than one WebService)
